@@ -9,6 +9,7 @@ package c08
 
 import (
 	"fmt"
+	"runtime"
 	"runtime/debug"
 	"runtime/metrics"
 	"strings"
@@ -213,8 +214,13 @@ func runC08(t *rapid.T, w *rep.Worker) {
 		// allocation: linear in the input with a generous constant; a suspicious reading is confirmed by repetition
 		limit := uint64(4096*len(v.b) + 1<<20)
 		al := g.alloc
-		for r := 0; r < 2 && al > limit; r++ {
-			if a := genRead(typ, v.b).alloc; a < al {
+		for r := 0; r < 3 && al > limit; r++ {
+			// confirm with the exact, stop-the-world counter (runtime/metrics attributes small allocations per span refill)
+			var m0, m1 runtime.MemStats
+			runtime.ReadMemStats(&m0)
+			_ = genRead(typ, v.b)
+			runtime.ReadMemStats(&m1)
+			if a := m1.TotalAlloc - m0.TotalAlloc; a < al {
 				al = a
 			}
 		}
